@@ -4,7 +4,8 @@
 namespace rs {
 
 static const char* const kNames[K_COUNT] = { "none", "mark", "pass", "fail_cpp", "fail_c", "throw_std", "throw_foreign", "print", "clock",
-    "alloc", "free", "realloc", "expect_leaks", "ignore_leaks", "ptr_set", "plugin_error" };
+    "alloc", "free", "realloc", "expect_leaks", "ignore_leaks", "ptr_set", "plugin_error",
+    "die_signal", "die_exit", "die_abort", "die_stop", "fork_fail", "wait_eintr", "wait_error", "wait_stopped", "wait_exited", "wait_signaled" };
 const char* kindName(int k) { return k >= 0 && k < K_COUNT ? kNames[k] : "none"; }
 int kindFromName(const char* s) { for (int i = 0; i < K_COUNT; i++) if (!strcmp(s, kNames[i])) return i; return K_NONE; }
 
@@ -12,7 +13,7 @@ Config configOf(const Desc& d) {
     Config c;
     c.repeat = (int)d.pi("repeat", 0); c.reverse = (int)d.pi("reverse"); c.shuffle = (int)d.pi("shuffle"); c.shuffleSeed = (uint64_t)d.pi("shuffle_seed", 1);
     c.runIgnored = (int)d.pi("run_ignored"); c.verbose = (int)d.pi("verbose"); c.color = (int)d.pi("color"); c.output = (int)d.pi("output");
-    c.package = d.ps("package"); c.hasExceptions = d.variant != "noexc";
+    c.separate = (int)d.pi("separate"); c.package = d.ps("package"); c.hasExceptions = d.variant != "noexc";
     return c;
 }
 
@@ -30,6 +31,7 @@ void buildArgv(const Desc& d, Vec<Str>& av) {
     if (c.shuffle == 1) { if (d.pi("shuffle_attached", 1)) av.push_back(sfmt("-s%llu", (unsigned long long)c.shuffleSeed)); else { av.push_back("-s"); av.push_back(sfmt("%llu", (unsigned long long)c.shuffleSeed)); } }
     if (c.shuffle == 2) av.push_back("-s");
     if (c.runIgnored) av.push_back("-ri");
+    if (c.separate) av.push_back("-p");
     if (c.output == 1) av.push_back("-onormal");
     if (c.output == 2) av.push_back("-oeclipse");
     if (c.output == 3) av.push_back("-ojunit");
@@ -55,7 +57,7 @@ void buildArgv(const Desc& d, Vec<Str>& av) {
 
 // ------------------------------------------------------------------------------------------------
 struct Features {
-    bool failures, throws, cfail, pluginErr, leaks, ptrs, plugins, filters, alphaNames, exampleFilters, special_xml, special_tc, clockFaults, prints, ignored, order, junit, teamcity, overflowPtr;
+    bool failures, throws, cfail, pluginErr, leaks, ptrs, plugins, filters, alphaNames, exampleFilters, special_xml, special_tc, clockFaults, prints, ignored, order, junit, teamcity, overflowPtr, procReal, procSyn;
 };
 
 static Str pickName(Rng& r, const Features& f, const char* prefix, int idx, bool identifier) {
@@ -104,6 +106,8 @@ void generate(uint64_t seed, const Str& profile, Desc& d, bool exceptions) {
     else if (profile == "pointers") { f.ptrs = true; f.plugins = true; f.cfail = true; f.throws = exceptions; f.overflowPtr = true; f.order = true; }
     else if (profile == "junit") { f.junit = true; f.special_xml = true; f.cfail = true; f.throws = exceptions; f.clockFaults = true; f.pluginErr = true; f.plugins = true; }
     else if (profile == "teamcity") { f.teamcity = true; f.special_tc = true; f.cfail = true; f.throws = exceptions; f.order = true; f.clockFaults = true; f.exampleFilters = true; }
+    else if (profile == "process") { f.procReal = true; f.throws = exceptions; f.cfail = true; f.pluginErr = true; f.plugins = true; f.leaks = true; f.order = true; }
+    else if (profile == "process_syn") { f.procSyn = true; f.cfail = true; f.order = true; f.exampleFilters = true; }
     else { f.throws = exceptions; f.cfail = true; }
 
     // swarm: per run, switch individual op kinds off
@@ -116,6 +120,7 @@ void generate(uint64_t seed, const Str& profile, Desc& d, bool exceptions) {
 
     int nTests = (int)world.small(0, 40);
     if (burst) nTests = (int)world.range(12, 40);
+    if (f.procReal) nTests = (int)world.small(1, 8);
     if (world.chance(1, 30)) nTests = 0;
     if (nTests == 0 && !world.chance(1, 3)) nTests = 1;
     int nGroups = (int)world.range(1, 6);
@@ -180,6 +185,39 @@ void generate(uint64_t seed, const Str& profile, Desc& d, bool exceptions) {
                 }
                 else if (w < 90 && f.ptrs) { o.kind = K_PTR_SET; o.a = (int64_t)world.below(world.chance(1, 2) ? 2 : N_TARGETS); o.b = (int64_t)world.below(N_VALUES); }
                 else o.kind = K_MARK;
+                T.ops.push_back(o);
+            }
+        }
+        if (f.procReal) {
+            // the child dies somewhere (or not at all)
+            if (faults.chance(1, 2) && !T.ops.empty()) {
+                size_t at = (size_t)faults.below(T.ops.size());
+                Op o; o.phase = T.ops[at].phase; o.d = ++opLine;
+                unsigned w2 = (unsigned)faults.below(10);
+                if (w2 < 5) { o.kind = K_DIE_SIGNAL; static const int sigs[] = { 1, 2, 3, 4, 5, 6, 7, 8, 9, 10, 11, 12, 13, 14, 15, 16, 17, 18, 23, 24, 25, 26, 27, 28, 29, 30, 31 }; o.a = sigs[faults.below(27)]; }
+                else if (w2 < 7) { o.kind = K_DIE_EXIT; o.a = (int64_t)faults.range(1, 255); if (faults.chance(1, 4)) o.a = (int64_t)(faults.chance(1, 2) ? 256 : 512); }
+                else if (w2 < 8) o.kind = K_DIE_ABORT;
+                else o.kind = K_DIE_STOP;
+                T.ops.insert(T.ops.begin() + (long)at, o);
+            }
+            if (faults.chance(1, 4)) { Op o; o.kind = K_W_EINTR; o.phase = PH_PROC; o.a = faults.chance(1, 3) ? faults.range(28, 36) : faults.range(1, 35); T.ops.push_back(o); }
+            if (faults.chance(1, 25)) { Op o; o.kind = K_FORK_FAIL; o.phase = PH_PROC; T.ops.push_back(o); }
+        }
+        if (f.procSyn) {
+            // what fork and waitpid answer for this test
+            if (faults.chance(1, 12)) { Op o; o.kind = K_FORK_FAIL; o.phase = PH_PROC; T.ops.push_back(o); }
+            else {
+                int n = (int)faults.small(0, 4);
+                for (int i = 0; i < n; i++) {
+                    Op o; o.phase = PH_PROC; unsigned w2 = (unsigned)faults.below(10);
+                    if (w2 < 6) { o.kind = K_W_EINTR; unsigned z = (unsigned)faults.below(4); o.a = z == 0 ? faults.range(28, 36) : (z == 1 ? faults.range(40, 80) : faults.range(1, 27)); }
+                    else { o.kind = K_W_STOP; o.a = (int64_t)faults.range(1, 31); }
+                    T.ops.push_back(o);
+                }
+                Op o; o.phase = PH_PROC; unsigned w2 = (unsigned)faults.below(10);
+                if (w2 < 4) { o.kind = K_W_EXIT; o.a = faults.chance(1, 3) ? 0 : (int64_t)faults.range(0, 255); }
+                else if (w2 < 9) { o.kind = K_W_SIGNAL; o.a = (int64_t)faults.range(1, 31); o.b = (int64_t)faults.below(2); }
+                else { o.kind = K_W_ERR; static const int errs[] = { 10 /*ECHILD*/, 22 /*EINVAL*/, 11 /*EAGAIN*/, 1 }; o.a = errs[faults.below(4)]; }
                 T.ops.push_back(o);
             }
         }
@@ -259,6 +297,7 @@ void generate(uint64_t seed, const Str& profile, Desc& d, bool exceptions) {
     if (f.junit) { d.p["output"] = 3; if (cfg.chance(1, 2)) d.sp["package"] = pickName(cfg, f, "pk", 0, false); if (d.pi("verbose") == 2) d.p["verbose"] = 1; }
     else if (f.teamcity) d.p["output"] = 4;
     else d.p["output"] = cfg.chance(1, 6) ? cfg.range(1, 2) : 0;
+    if (f.procReal || f.procSyn) { d.p["separate"] = 1; d.p["synthetic"] = f.procSyn; if (d.pi("verbose") == 2) d.p["verbose"] = 1; }
     d.p["rand_mode"] = cfg.chance(1, 2) ? 0 : cfg.range(1, 4);
     static const int64_t starts[] = { 0, 1, 1000, 1700000000000LL, 4294967290LL, 4294967296LL, 9223372036854775000LL, 86399999 };
     d.p["clock_start"] = starts[cfg.below(8)];
